@@ -38,7 +38,11 @@ class PROP(PropCheck):
                  "f(", "[", "a AND", "NOT", "-", "RETURN", "(" * 60 + "1" + ")" * 60, "[" * 60 + "]" * 60, "{" * 40 + "}" * 40,
                  "-" * 200 + "1", "NOT " * 150 + "x", "a <- " * 100 + "1", "IF (a) {} ELSE " * 50 + "{}", "x " + "AND x " * 150,
                  'IMPORT [' + ",".join(['"f"'] * 70) + '] FROM MOD "M"', "PROCEDURE f(" + ",".join("p%d" % i for i in range(300)) + ") {}",
-                 "f(" + ",".join(["1"] * 300) + ")", "\\", "!", "=", '"abc', "é(", "😀"]
+                 "f(" + ",".join(["1"] * 300) + ")", "\\", "!", "=", '"abc', "é(", "😀",
+                 # every kind of expression as an (invalid) assignment target: the diagnostic quotes the expression
+                 "[] <- 1", "f() <- 1", "[1] <- 2", "f(1, [2, 3]) <- 4", "(x) <- 1", "1 <- 2", '"s" <- 1', "TRUE <- 1", "NULL <- 1",
+                 "-x <- 1", "NOT x <- 1", "a + b <- 1", "a AND b <- 1", "x[1][2] <- 3", "f()[1] <- 2", "[[]] <- []", "[f(), []] <- 0",
+                 "x <- y <- [] <- 1", "l[[]] <- 1", "l[f()] <- 1"]
         return [Case(s, kind="corpus") for s in fixed]
 
     def cases(self, rng, tier, scale=1):
